@@ -26,7 +26,8 @@ ASTs; the dependency graph of each script is known by construction, independentl
 API.run / API.semantic_analysis are the functions of the working tree with only their text->AST prologue removed
 (vc.pipeline.api_from_ast, mechanical extraction on every run).
 Bounds: quick n <= 3 statements exhaustive over 2 inputs (+ scalar-in-clause variants), n = 4 sampled;
-thorough n <= 4 exhaustive, n = 5 sampled; ALL permutations of every script.
+thorough n <= 3 exhaustive, n = 4 (3000 scripts) and n = 5 (400) sampled; create_dag on ALL permutations of every script
+(<= 120), semantic_analysis on all of them in thorough (first 6 in quick), run() on the first 8 (6) written orders.
 """
 from __future__ import annotations
 
@@ -131,9 +132,10 @@ def main() -> None:  # noqa: C901
     rng = random.Random(chk.seed)
     thorough = chk.tier == "thorough"
     plans = [(2, 2, False, 0), (3, 2, False, 0), (2, 1, True, 0), (3, 1, True, 0),
-             (4, 2, False, 0 if thorough else 250)]
+             (4, 2, False, 3000 if thorough else 250)]
     if thorough:
         plans += [(4, 1, True, 600), (5, 2, False, 400)]
+    run_orders = 8 if thorough else 6       # run() compared on the first written orders only (it dominates the cost)
     import pandas as pd
     data = {f"DS_{i}": pd.DataFrame({"Id_1": [1, 2, 3], "Me_1": [float(i), 2.0 * i, None]}) for i in (1, 2, 3)}
 
@@ -188,7 +190,7 @@ def main() -> None:  # noqa: C901
                     fail("semantic_analysis::order-dependent", f"semantic_analysis differs between written orders "
                          f"[{show(first)}] -> {sem0[0]} {str(sem0[1])[:80]} and [{show(perm)}] -> {s[0]} {str(s[1])[:80]}",
                          {"order_1": show(first), "result_1": str(sem0)[:300], "order_2": show(perm), "result_2": str(s)[:300]})
-                if do_run:
+                if do_run and n_sem <= run_orders:
                     r = run_outcome(perm, data)
                     stats["run_compared"] += 1
                     if run0 is None:
@@ -256,7 +258,7 @@ def main() -> None:  # noqa: C901
                 fail("semantic_analysis::order-dependent" + sfx, f"semantic_analysis differs between written orders "
                      f"[{show(first)}] -> {sem0[0]} {str(sem0[1])[:80]} and [{show(perm)}] -> {s[0]} {str(s[1])[:80]}",
                      {"order_1": show(first), "result_1": str(sem0)[:300], "order_2": show(perm), "result_2": str(s)[:300]})
-            if do_run:
+            if do_run and pi < run_orders:
                 r = run_outcome(perm, {k: v for k, v in rich_data.items() if k in G.global_inputs(stmts)})
                 stats["run_compared"] += 1
                 if run0 is None:
